@@ -134,10 +134,27 @@ func (p *vfPresWorld) apply(op vfPresOp) {
 	switch op.Kind {
 	case "subme":
 		was := p.attached(op.Sess, p.meOf(u))
-		c.Req(`{"sub":{"id":"$ID","topic":"me"}}`)
+		mark := len(c.frames)
+		_, fr := c.Req(`{"sub":{"id":"$ID","topic":"me","get":{"what":"sub"}}}`)
 		if !was && p.attached(op.Sess, p.meOf(u)) {
-			p.attachMark[op.Sess] = len(c.frames)
-			p.attachTruth[op.Sess] = map[string]bool{"a": p.online("a"), "b": p.online("b"), "grp": p.grpOnline()}
+			p.attachMark[op.Sess] = mark
+			// what the session is told at attach time: the online flags of {meta sub}
+			told := map[string]bool{}
+			for _, f := range fr {
+				if f.Msg.Meta != nil {
+					for _, sb := range f.Msg.Meta.Sub {
+						for _, n := range []string{"a", "b"} {
+							if sb.Topic == p.users[n].id() {
+								told[n] = sb.Online
+							}
+						}
+						if sb.Topic == p.grp {
+							told["grp"] = sb.Online
+						}
+					}
+				}
+			}
+			p.attachTruth[op.Sess] = told
 		}
 	case "leaveme":
 		c.Req(`{"leave":{"id":"$ID","topic":"me"}}`)
@@ -213,11 +230,16 @@ func vfPresExec(hist []int, last bool) vfXResult {
 			truth := p.online(subj)
 			told, seen := vfLastPres(c, mark, p.users[subj].id())
 			if both {
-				if seen && (told == "on") != truth {
-					bad("C10:presence-not-converged:user", fmt.Sprintf("after %s: %s was last told %q about %s, truth online=%v", op.Name, obs, told, subj, truth))
+				how := p.mutedHow[ou]
+				if how == "" {
+					how = "never-muted"
 				}
-				if !seen && p.attachTruth[obs][subj] != truth {
-					bad("C10:presence-change-not-told:user", fmt.Sprintf("after %s: %s attached when %s online=%v, now online=%v, and was never told", op.Name, obs, subj, p.attachTruth[obs][subj], truth))
+				believes := p.attachTruth[obs][subj] // the online flag reported at attach time
+				if seen {
+					believes = told == "on"
+				}
+				if believes != truth {
+					bad("C10:presence-not-converged:user:"+how, fmt.Sprintf("after %s: %s believes %s online=%v (last {pres}: %q seen=%v, flag at attach %v), truth online=%v", op.Name, obs, subj, believes, told, seen, p.attachTruth[obs][subj], truth))
 				}
 			}
 			// group
@@ -316,9 +338,9 @@ func init() {
 	vfXModels["pres"] = &vfXModel{Name: "pres", NumOps: len(vfPresOps), OpName: func(i int) string { return vfPresOps[i].Name },
 		Exec: vfPresExec, MaxDepth: func(th bool) int {
 			if th {
-				return 5
+				return 6
 			}
-			return 3
+			return 4
 		}}
 }
 
